@@ -371,7 +371,7 @@ func c19Run(r *simkit.Run) {
 	r.Sched(simkit.SchedOpts{MaxSteps: 3000000, Stick: r.DrawStick(), ClockDen: 50, MaxSim: 3 * time.Hour,
 		Quanta: []time.Duration{10 * time.Millisecond, 500 * time.Millisecond, 2 * time.Second, 3 * time.Second, 7 * time.Second}})
 
-	if r.Live() > 0 && !r.Truncated {
+	if r.Unfinished() {
 		r.Fail("liveness", "database", "writer/readers did not finish (live=%d)", r.Live())
 	}
 
